@@ -3,8 +3,14 @@
    no Extract Constant; Z / positive stay as extracted inductives. *)
 Require Import ExtrOcamlBasic.
 Require Import Base Fixed Panic Curve.
+Require Import AnchorTypes AnchorSem Gate AccountsTable HandlerFacts Spec AuthCell AuthFixture.
 Extraction Language OCaml.
 Extraction "extract/model.ml"
   p_pause p_unpause p_unpause_if_expired p_is_expired p_can_pause c_is_expired ix_propagate
   ix_panic_pause ix_panic_unpause ix_panic_unpause_permissionless is_protocol_paused mkP
-  ir_validate calc_interest_rate mpc legacy_curve.
+  ir_validate calc_interest_rate mpc legacy_curve
+  cell fixture_names fixture_accounts fixture_now0 accounts_table
+  tw_owner tw_disc tw_setnum tw_flag tw_setkey tw_del tw_clone tw_now mkWorld mkBinding
+  PROG_MARGINFI PROG_SYSTEM PROG_TOKEN PROG_TOKEN22 PROG_KAMINO PROG_FARMS PROG_DRIFT PROG_SOLEND PROG_ATA
+  PROG_STRANGER SYSVAR_INSTRUCTIONS SYSVAR_RENT
+  validate_bank_state weighted_asset_value_rule is_signer_authorized account_not_frozen_for_authority.
